@@ -134,7 +134,7 @@ def index_space(prog, rep):
                      "field initialisation) combines equal tags")
     tg = Tagger(prog)
     n = 0
-    for f in sorted(prog.fns.values(), key=lambda x: x.id):
+    for f in sorted(prog.shape_fns(), key=lambda x: x.id):
         if f.body is None or f.crate.prefix != "tsg":
             continue
         body = f.body
@@ -284,7 +284,7 @@ def index_space(prog, rep):
                               "CheckContext binds stanza_query to a %s-space and file_query to a %s-space query" % (a, c))
     rep.floor("E3.x", n, 40, "index-space uses")
     # the match iterators are created from the right queries
-    for f in [x for x in prog.fns.values() if x.name in ("try_visit_matches_strict", "try_visit_matches_lazy") and x.body is not None]:
+    for f in [x for x in prog.shape_fns() if x.name in ("try_visit_matches_strict", "try_visit_matches_lazy") and x.body is not None]:
         tr = tg.tracer(f)
         for b, t in f.body.calls():
             if is_callee(t, r"tree_sitter::QueryCursor::matches$"):
@@ -319,7 +319,7 @@ def query_mutations(fns):
 
 def unrestricted_cursors(prog, rep, rule):
     """no query cursor is restricted (match limit, byte/point range, depth, timeout): shared by C03.C and C12.T"""
-    for f, t in restricted_cursor_calls(prog.fns.values()):
+    for f, t in restricted_cursor_calls(prog.shape_fns()):
         rep.violation(rule, "%s :: %s" % (f.id, callee_fn(t)["def"].rsplit("::", 1)[-1]), sp_str(t["sp"]),
                       "the query cursor is restricted: matches outside the limit (or after the timeout) are silently not reported")
     rep.control(rule, prog.control is not None and {callee_fn(t)["def"].rsplit("::", 1)[-1] for _f, t in restricted_cursor_calls(prog.control.fns.values())} >= {"set_match_limit", "set_byte_range"},
@@ -346,7 +346,7 @@ def capture_and_cursor(prog, rep):
             detail = str(a)[:200]
         rep.check(ok, "C03.C", "%s :: capture evaluation" % f.id, f.loc(), "from_nodes(graph, mat.nodes_for_capture_index(idx), self.quantifier)", "a capture is not evaluated from tree-sitter's own node iterator for that capture index: " + detail)
     unrestricted_cursors(prog, rep, "C03.C")
-    ncur = sum(1 for f in prog.fns.values() if f.body is not None for b, t in f.body.calls() if is_callee(t, r"tree_sitter::QueryCursor::new$"))
+    ncur = sum(1 for f in prog.shape_fns() if f.body is not None for b, t in f.body.calls() if is_callee(t, r"tree_sitter::QueryCursor::new$"))
     rep.floor("C03.C", ncur, 2, "query cursors")
 
 
@@ -357,7 +357,7 @@ def run(prog, rep):
     # the public visitor: every capture of the stanza's query except the internal full-match one is exposed
     rep.rule("C03.V", "File/Stanza::try_visit_matches expose all named captures of the match: the only filter removes the internal full-match capture, by index, in the index space of the visited query")
     nv = 0
-    for f in [x for x in prog.fns.values() if x.name == "try_visit_matches" and x.file == "src/execution.rs"]:
+    for f in [x for x in prog.shape_fns() if x.name == "try_visit_matches" and x.file == "src/execution.rs"]:
         preds = []
         for c in prog.all_closures_under(f):
             if c.output is not None and c.ty(c.output).s == "bool":
@@ -408,10 +408,10 @@ def run(prog, rep):
     # E5: stanzas / queries immutable after parsing
     rep.rule("E5.q", "File.stanzas is only pushed to by the parser (never removed from, reordered or filtered) and no compiled Query is mutated")
     nq = 0
-    for f, t in query_mutations(prog.fns.values()):
+    for f, t in query_mutations(prog.shape_fns()):
         rep.violation("E5.q", "%s :: %s" % (f.id, callee_fn(t)["def"].rsplit("::", 1)[-1]), sp_str(t["sp"]), "a compiled query is mutated after construction (captures/patterns disabled)")
     rep.control("E5.q", prog.control is not None and len(query_mutations(prog.control.fns.values())) == 2, "planted disable_capture / disable_pattern calls are reported")
-    for f in sorted(prog.fns.values(), key=lambda x: x.id):
+    for f in sorted(prog.shape_fns(), key=lambda x: x.id):
         if f.body is None:
             continue
         tr = None
@@ -437,7 +437,7 @@ def run(prog, rep):
     e3_driver.run_driver(prog, rep, rule="C01.D")
     # from_nodes
     rep.rule("C03.Q", "Value::from_nodes: One -> the first node, ZeroOrOne -> null or the node, ZeroOrMore/OneOrMore -> nodes.map(add_syntax_node).collect() in iterator order")
-    fn = [f for f in prog.fns.values() if f.name == "from_nodes" and f.self_path == "tsg::graph::Value"]
+    fn = [f for f in prog.shape_fns() if f.name == "from_nodes" and f.self_path == "tsg::graph::Value"]
     if len(fn) != 1:
         rep.violation("C03.Q", "anchor-lost:from_nodes", "", "not found")
     else:
